@@ -21,6 +21,27 @@ def main():
         from . import checks_sched
 
         return checks_sched.run(a.prop, a.tier, a.replay)
+    if a.prop == "C10":
+        from . import checks_jobdir
+
+        return checks_jobdir.run(a.prop, a.tier, a.replay)
+    if a.prop in ("C05", "C11"):
+        from . import checks_jobdir, checks_sched
+        import json
+
+        kind = None
+        if a.replay:
+            kind = "sched" if "plan" in json.load(open(a.replay))["payload"] else "jobdir"
+        rep = None
+        if kind in (None, "sched"):
+            rep = checks_sched.run(a.prop, a.tier, a.replay, finish=False)
+            if isinstance(rep, int):
+                return rep
+        if kind in (None, "jobdir") and a.prop == "C05":
+            rep = checks_jobdir.run(a.prop, a.tier, a.replay, rep=rep, finish=False)
+            if isinstance(rep, int):
+                return rep
+        return rep.finish()
     print(f"no check for {a.prop}", file=sys.stderr)
     return 2
 
